@@ -23,6 +23,7 @@ RULE = ("Exhaustive: self from a fixed family of 0..3-atom structures (the 0-ato
         "corresponding atoms resolving to other's own coefficient text; same-atoms terms superseded forwards/backwards "
         "only; everything else untouched; extra columns merged by label with '.'). Non-trivial = other has >= 1 term "
         "and (map non-empty or self has terms of that kind); distinct by hash.")
+RULE += (" Since rounds 9-10: After every case a third fragment with other extra-column labels is added and then the first fragment again: the first fragment must equal its snapshot throughout and be addable again.")
 ASSUMPTIONS = ["pairs are generated compatible per term kind (both with tables, neither, or one side without terms of that "
                "kind) and for pair coefficients (both or neither)",
                "for kinds where neither side has a table only the type partition is compared (ids disjoint from self's)"]
